@@ -318,6 +318,7 @@ def run(res, tier):
     res.rule("BIT-2", "LOG_BITS / LOG_BYTES / LOG_BYTES_MASK of every impl are consistent with BITS")
     res.rule("DSZ-1", "a function that places row gadgets of a matrix ciphertext from its base2k() and dnum() reads its dsize()")
     res.rule("BIT-3", "blind retrieval butterflies: the stage of distance 2^e is controlled by stored bit bit_rsh + e (forward and reverse networks)")
+    res.rule("SIGN-2", "a loop rotating by a step that depends on its variable is not left on a comparison of the step with N (X^N = -1; only 2N is the identity)")
     res.rule("ROT-3", "an in-place rotation of an object that lives across the iterations of a loop takes a loop-invariant exponent (in-place rotations accumulate)")
     res.rule("RET-1", "the blind retriever's flush passes through a full reset (every accumulator's num, the counter) on every returning path")
     res.rule("THR-4", "exact partition of the work items of the multi-threaded evaluators")
@@ -335,6 +336,9 @@ def run(res, tier):
         res.floor("BIT-3", "blind retrieval butterfly networks", n3, 2)
         nr3 = rot3(p, res)
         res.floor("ROT-3", "in-place rotations of loop-carried objects", nr3, 2)
+        from . import sign
+        nse = sign.check_rotation_loop_exits(p, res, "SIGN-2", ("poulpy_bin_fhe", "poulpy_core"))
+        res.floor("SIGN-2", "loops rotating by a step that depends on the loop variable", nse, 1)
         nr1 = ret1(p, res)
         res.floor("RET-1", "flush methods of the blind retriever", nr1, 1)
         c20.thr4(p, res)
